@@ -146,14 +146,14 @@ theorem total_grows (cfg : Cfg) (tbl : List Nat) (hsorted : (cfg.queues.map (fun
     omega
 
 /-- polling one instant: the object leaves the sender within `mu + max(1, max_transfer_count)` calls -/
-theorem leaves_within (cfg : Cfg) (tbl : List Nat) (hdur : 0 < cfg.fdtDuration)
+theorem leaves_within (cfg : Cfg) (tbl : List Nat)
     (hsorted : (cfg.queues.map (fun x => x.1)).Pairwise (fun a b => a < b)) (ops : List Op) (t N : Nat) (f : FileDesc)
     (hu : Unpaced (run (init cfg tbl) ops) t N f) (hprio : f.prio ∈ cfg.queues.map (fun x => x.1))
     (tks : List (List (Nat × Nat))) (hlen : mu N tbl (run (init cfg tbl) ops) + burstF f ≤ tks.length) :
     ¬ AllIn t N (run (init cfg tbl) ops) tks := by
   intro hall
   obtain ⟨ops', hm, hin, htot⟩ := total_grows cfg tbl hsorted _ t N f hu hprio tks ops (Mono.refl _) hall
-  have hb := busy_reads_bounded cfg tbl hdur ops N tks
+  have hb := busy_reads_bounded cfg tbl ops N tks
   have hnb := none_busy N tks (run (init cfg tbl) ops)
   obtain ⟨f', hf', d⟩ := hm.fwd t f hu.obj
   have hl := (life_run cfg tbl ops').2
